@@ -145,6 +145,17 @@ Definition neon_guard_old {T} (zero : T) (C M : nat) (q : sseq) (a b : nat) (old
 Inductive kernel_id := KGeneric | KSse2 | KAvx2.
 Inductive arm := ArmGeneric | ArmSse2 | ArmAvx2.
 
+(* `enum Dispatch` as compiled on arm / aarch64 hosts, where the dispatching pipeline runs on
+   16 columns (Lanes = <Neon as Backend>::Lanes) *)
+Inductive neon_kernel_id := NKGeneric | NKNeon.
+Inductive neon_arm := NArmGeneric | NArmNeon.
+
+(* the steps of a safe scoring wrapper that the translators recognise in the source; the order
+   that [simd_guard] models is [simd_guard_steps] *)
+Inductive wrapper_step := WWrapGuard | WShortReturn | WRangeGuard | WResize | WKernel | WOther.
+Definition simd_guard_steps : list wrapper_step :=
+  [WWrapGuard; WShortReturn; WRangeGuard; WResize; WKernel].
+
 Section Simd.
   Context {T : Type}.
   Variable add : T -> T -> T.     (* one lane of _mm256_add_ps / _mm_add_ps *)
@@ -319,6 +330,15 @@ Section Simd.
     | KAvx2 => avx2_rows_into csp csg K pssm pads q a b old
     | KSse2 => sse2_rows_into cs2 32 pssm q a b old
     | KGeneric => generic_rows_into add zero 32 pssm q a b old
+    end.
+
+  (* the same `match self.backend` as compiled on arm / aarch64 hosts: 16 columns, arms Generic / Neon *)
+  Definition dispatch_rows_into_arm (table : neon_arm -> neon_kernel_id) (csn : lane4_consts)
+             (pssm : list (list T)) (ar : neon_arm) (q : sseq) (a b : nat) (old : sscores T)
+    : res (sscores T) :=
+    match table ar with
+    | NKNeon => neon_rows_into csn 16 pssm q a b old
+    | NKGeneric => generic_rows_into add zero 16 pssm q a b old
     end.
 
 End Simd.
